@@ -61,11 +61,20 @@ func VerifH_C20_args() {
 	vC20OpenErr = symChoice("open-fails", 2) == 1
 	vC20OpenCalled, vC20SawRO = 0, false
 	n := 1 + symChoice("nargs", symParam("maxargs", 2))
+	withColumns := symParam("withcolumns", 0) == 1 // the list starts with a well-formed columns argument
+	if withColumns {
+		n++
+	}
 	args := []string{"t"}
 	names := make([]int, n)
 	hasEq := make([]bool, n)
 	decimal := make([]bool, n)
 	for i := 0; i < n; i++ {
+		if withColumns && i == 0 {
+			names[i], hasEq[i] = 0, true
+			args = append(args, vOptionNames[0]+"=x")
+			continue
+		}
 		names[i] = symChoice("name", len(vOptionNames))
 		hasEq[i] = symChoice("has-eq", 2) == 1
 		a := vOptionNames[names[i]]
